@@ -463,5 +463,9 @@ func (prop) Generate(rng *rand.Rand, tier string) []corr.Case {
 		}
 		cases = append(cases, corr.Case{Ops: s.ops, Tag: tag})
 	}
+
+	// (D) crafted index lists: duplicated, permuted, out-of-range, ancestor-overlapping, of another length
+	// than the query hashes (crafted.go); appended last, so the cases above are the same as before for a seed
+	cases = append(cases, craftedCases(rng, tier)...)
 	return cases
 }
